@@ -274,7 +274,7 @@ func (w *world) onServerWrite(p *simnet.Peer, b []byte, err error) {
 	} else if len(cs.plan.React) > 0 {
 		re = cs.plan.React[len(cs.plan.React)-1]
 	}
-	rid, body := responseFor(f.ID, f.Serial)
+	rid, body := responseFor(f.ID, f.Serial, re.Var)
 	if rid == 0 {
 		return
 	}
@@ -294,11 +294,11 @@ func (w *world) onServerWrite(p *simnet.Peer, b []byte, err error) {
 		cs.resp = append(cs.resp, respOp{at: at, frame: mk(f.Serial, body), note: "dup1"}, respOp{at: at, frame: mk(f.Serial, body), note: "dup2"})
 		w.fault("resp.dup")
 	case "unknown":
-		_, wb := responseFor(f.ID, f.Serial+0x4000)
+		_, wb := responseFor(f.ID, f.Serial+0x4000, re.Var)
 		cs.resp = append(cs.resp, respOp{at: at, frame: mk(f.Serial, wb), note: "unknown"})
 		w.fault("resp.unknown_serial")
 	case "unknown_then_ok":
-		_, wb := responseFor(f.ID, f.Serial+0x4000)
+		_, wb := responseFor(f.ID, f.Serial+0x4000, re.Var)
 		cs.resp = append(cs.resp, respOp{at: at, frame: mk(f.Serial, wb), note: "unknown"}, respOp{at: at, frame: mk(f.Serial, body), note: "ok"})
 		w.fault("resp.unknown_serial")
 	default:
@@ -340,13 +340,43 @@ func isPlatformCommand(id uint16) bool {
 // command/response pairing): the body starts with the command's serial number.
 //
 //go:norace
-func responseFor(cmd, serial uint16) (uint16, []byte) {
+func responseFor(cmd, serial uint16, variant int) (uint16, []byte) {
 	s := []byte{byte(serial >> 8), byte(serial)}
+	var r *rng
+	if variant > 0 {
+		r = newRng(uint64(variant)*0x9e3779b97f4a7c15 + uint64(cmd))
+	}
 	switch cmd {
 	case 0x8104, 0x8106:
-		return 0x0104, append(s, 0) // serial, parameter count 0
+		if r == nil {
+			return 0x0104, append(s, 0) // serial, parameter count 0
+		}
+		// a parameter list: DWORD, WORD and string parameters; a string parameter may be empty (length 0), also as
+		// the last item, whose id and length byte then end exactly at the end of the body
+		n := 1 + r.intn(4)
+		b := append(s, byte(n))
+		for i := 0; i < n; i++ {
+			switch r.intn(3) {
+			case 0:
+				b = append(b, 0, 0, 0, byte(r.pick(0x01, 0x02, 0x20, 0x55)), 4)
+				b = append(b, r.bytes(4)...)
+			case 1:
+				b = append(b, 0, 0, 0, byte(r.pick(0x31, 0x81)), 2)
+				b = append(b, r.bytes(2)...)
+			default:
+				ln := r.pick(0, 0, 1, 7)
+				b = append(b, 0, 0, 0, byte(r.pick(0x10, 0x13, 0x83)), byte(ln))
+				b = append(b, []byte("ABC1234")[:ln]...)
+			}
+		}
+		return 0x0104, b
 	case 0x8801:
-		return 0x0805, append(s, 0, 0, 0) // serial, result 0, id count 0
+		if r == nil {
+			return 0x0805, append(s, 0, 0, 0) // serial, result 0, id count 0
+		}
+		n := r.intn(4)
+		b := append(s, byte(r.intn(3)), 0, byte(n))
+		return 0x0805, append(b, r.bytes(4*n)...)
 	case 0x9205:
 		return 0x1205, append(s, 0, 0, 0, 0) // serial, resource count 0
 	case 0x9206:
